@@ -24,6 +24,11 @@ def verify_contracts(eng, contracts, chk, opts=None):
         except RecursionError:
             chk.error("{}: recursion limit (needs contract)".format(c.target))
             continue
+        except Exception as e:      # noqa -- a Python-level failure inside the generator (e.g. a modelled built-in called with an
+            # argument pattern the model does not know) concerns this one contract: the other parts of the check must still run
+            chk.error("{}: generator failure {}: {} | {}".format(c.target, type(e).__name__, str(e)[:200],
+                                                             traceback.format_exc()[-300:].replace("\n", " / ")))
+            continue
         if len(eng.obligations) == n0:
             chk.error("{}: zero obligations generated (vacuous)".format(c.target))
     obs = discharge(eng, chk, by_target, opts=opts)
